@@ -648,7 +648,9 @@ func c14CheckText(rt *rapid.T, rec *vstat.Rec, txt *c14Text, s, r string, t0, t1
 		}
 		db, err := c14OpenScratch()
 		if err != nil {
-			rt.Skipf("scratch database trouble: %v", err)
+			fmt.Printf("VERIF-INFRA: "+"scratch database trouble: %v"+"\n", err)
+			rec.Label("inconclusive:infrastructure")
+			return false
 		}
 		err = db.QueryRow("SELECT length(randomblob(" + site.Args[0] + "))").Scan(&site.NLen)
 		db.Close()
@@ -690,7 +692,9 @@ func c14CheckText(rt *rapid.T, rec *vstat.Rec, txt *c14Text, s, r string, t0, t1
 	want, err1 := c14Execute(sub, single)
 	got, err2 := c14Execute(r, single)
 	if err1 != nil || err2 != nil {
-		rt.Skipf("scratch database trouble: %v %v", err1, err2)
+		fmt.Printf("VERIF-INFRA: "+"scratch database trouble: %v %v"+"\n", err1, err2)
+		rec.Label("inconclusive:infrastructure")
+		return false
 	}
 	if txt.Unordered {
 		sort.Strings(want.rows)
@@ -717,7 +721,9 @@ func c14CheckText(rt *rapid.T, rec *vstat.Rec, txt *c14Text, s, r string, t0, t1
 		for _, v := range vals[site.Idx] {
 			db, err := c14OpenScratch()
 			if err != nil {
-				rt.Skipf("scratch database trouble: %v", err)
+				fmt.Printf("VERIF-INFRA: "+"scratch database trouble: %v"+"\n", err)
+				rec.Label("inconclusive:infrastructure")
+				return false
 			}
 			var ts sql.NullFloat64
 			err = db.QueryRow("SELECT unixepoch(" + v + ", 'subsec')").Scan(&ts)
